@@ -214,7 +214,8 @@ def generate(rng, opts):
                 holder = n_sp - 2
             fname = rng.choice(["a.pth", "extra.pth", "zz.pth", "B.pth", "_x.pth"])
             prev = dirs[holder].get(fname, rng.choice(["", "# comment\n", "\n"]))
-            dirs[holder][fname] = prev + f"<SP{u}>\n" + rng.choice(["", "<ROOT>/does-not-exist\n"])
+            # (hand-edited files carry trailing blanks, Windows line ends: `site` strips the right-hand side of a line)
+            dirs[holder][fname] = prev + f"<SP{u}>" + rng.choice(["", "", " ", " \t", "\r"]) + "\n" + rng.choice(["", "<ROOT>/does-not-exist\n"])
         cfg["pth_flavor"] = "plain-two"
     elif rng.random() < 0.2 and n_sp >= 2:
         # the last directory is reachable only through a .pth file in the first one
@@ -223,7 +224,7 @@ def generate(rng, opts):
         regular_tops = [t for t in tops if f"{t}/__init__.py" in dirs[last] and "extend_path" not in dirs[last][f"{t}/__init__.py"] and "declare_namespace" not in dirs[last][f"{t}/__init__.py"]]
         flavor = rng.choice(["plain", "plain", "editables", "scikit", "setuptools"]) if regular_tops else "plain"
         if flavor == "plain":
-            lines = ["# comment", "", f"<SP{last}>", "<ROOT>/does-not-exist"]
+            lines = ["# comment", "", f"<SP{last}>" + rng.choice(["", "", " ", "\t ", "\r"]), "<ROOT>/does-not-exist"]
             rng.shuffle(lines)
             dirs[0]["extra.pth"] = "\n".join(lines) + "\n"
         else:
